@@ -3,6 +3,8 @@ package props
 import (
 	"encoding/json"
 	"os"
+
+	"github.com/jamespfennell/gtfs/extensions"
 )
 
 func jsonMarshal(v any) ([]byte, error)   { return json.Marshal(v) }
@@ -11,3 +13,5 @@ func jsonUnmarshal(b []byte, v any) error { return json.Unmarshal(b, v) }
 func ptr[T any](v T) *T { return &v }
 
 func tierThorough() bool { return os.Getenv("VERIF_TIER") == "thorough" }
+
+func noExtension() extensions.Extension { return extensions.NoExtension() }
